@@ -10,6 +10,8 @@ CONSTANTS
   Plans = {"whole", "hdr"}
   Frames <- FramesTiny
   MaxFrames = 2
+  Pres = {"none"}
+  PushPays <- PushNone
 INIT MCInit
 NEXT MCNext
 INVARIANTS Inv_WellFormedOut
